@@ -306,7 +306,7 @@ theorem runOne_ok {cp : Compiler} {progs : Nat → Prog} {outc : Outc} {args : L
       runProgram e.bk e.contd free1 outc (progs i).initN { vals := vals0, mpos := e.mpos } circ = .ok (st, tt) ∧
       e' = { e with prev := some (progs i).regs, runIds := e.runIds ++ [i],
                     samples := some (rowsOf (st.samples.map (·.2))),
-                    measured := fun k => if hasIdx (progs i).regs k then st.vals k else none,
+                    measured := recordByIndex (progs i).regs st.vals,
                     contd := e.contd || !circ.isEmpty, mpos := st.mpos } ∧
       w' = { vals := setAt w.vals i st.vals, free := setAt w.free i free1, locked := setAt w.locked i true } ∧
       t = t0 ++ tt := by
@@ -343,7 +343,7 @@ theorem runOne_of {cp : Compiler} {progs : Nat → Prog} {outc : Outc} {args : L
     runOne cp progs outc args e w i =
       .ok ({ e with prev := some (progs i).regs, runIds := e.runIds ++ [i],
                     samples := some (rowsOf (st.samples.map (·.2))),
-                    measured := fun k => if hasIdx (progs i).regs k then st.vals k else none,
+                    measured := recordByIndex (progs i).regs st.vals,
                     contd := e.contd || !circ.isEmpty, mpos := st.mpos },
            { vals := setAt w.vals i st.vals, free := setAt w.free i free1, locked := setAt w.locked i true },
            t0 ++ tt) := by
@@ -736,7 +736,7 @@ theorem concat_runList {cp : Compiler} {progs : Nat → Prog} {outc : Outc} {arg
   have hct1 : e1.contd = (e.contd || !circ1.isEmpty) := by rw [he1]
   have hmp1 : e1.mpos = st1.mpos := by rw [he1]
   have hmeas : ∀ k, e1.measured k = if hasIdx (progs i1).regs k then st1.vals k else none := by
-    intro k; rw [he1]
+    intro k; rw [he1]; rfl
   -- second segment: can_follow passed, hand-over made
   have hho2 : t0' = [] ∧ v2 = handOver (progs i2).regs e1.measured (w1.vals i2) := by
     unfold initStep at hi2
@@ -965,7 +965,7 @@ theorem concat_ok_iff {cp : Compiler} {progs : Nat → Prog} {outc : Outc} {args
     have hbk1 : e1.bk = e.bk := by rw [he1]
     have hmp1 : e1.mpos = st1.mpos := by rw [he1]
     have hmeas : ∀ k, e1.measured k = if hasIdx (progs i1).regs k then st1.vals k else none := by
-      intro k; rw [he1]
+      intro k; rw [he1]; rfl
     have hv2 : v2 = handOver (progs i2).regs e1.measured (w1.vals i2) := by
       unfold initStep at hi2
       rw [hprev] at hi2
@@ -1008,7 +1008,7 @@ theorem concat_ok_iff {cp : Compiler} {progs : Nat → Prog} {outc : Outc} {args
     have hbk1 : e1.bk = e.bk := by rw [he1]
     have hmp1 : e1.mpos = st1.mpos := by rw [he1]
     have hmeas : ∀ k, e1.measured k = if hasIdx (progs i1).regs k then st1.vals k else none := by
-      intro k; rw [he1]
+      intro k; rw [he1]; rfl
     have hw1f : w1.free i2 = w.free i2 := by rw [hw1]; simp [setAt, hne]
     have hi2 : initStep e1 (progs i2) (w1.vals i2) =
         .ok (handOver (progs i2).regs e1.measured (w1.vals i2), []) := by
